@@ -168,7 +168,9 @@ def run(ctx):
     rets = [n for n in cfg.stmt_nodes() if n.kind == "stmt" and isinstance(n.ast, ast.Return)]
 
     def utf16_test(n):
-        return n.kind == "test" and "utf-16be" in norm(n.ast) and "utf-16le" in norm(n.ast) and ".name in" in norm(n.ast)
+        # `x.name in ("utf-16be", "utf-16le")`, or one disjunct of the equivalent chain of equalities
+        t = norm(n.ast) if n.kind == "test" else ""
+        return ("utf-16be" in t or "utf-16le" in t) and ".name" in t
     def maps_utf8(n):
         return n.kind == "stmt" and isinstance(n.ast, ast.Assign) and norm(n.ast.value) == "lookupEncoding('utf-8')"
     tests = [n for n in cfg.nodes if utf16_test(n)]
@@ -433,15 +435,16 @@ def meta_rules(ctx):
     g = repo.func(REL, "EncodingParser.getAttribute")
     genv = ce.local_env(g.node, g.module)
     quoted = None
+    from ..repo import membership_test
+    cvar = None
     for n in walk_no_nested(g.node):
-        if isinstance(n, ast.If) and isinstance(n.test, ast.Compare) and isinstance(n.test.ops[0], ast.In):
-            v = ce.try_eval(n.test.comparators[0], g.module, genv)
-            if isinstance(v, (tuple, list, set, frozenset)) and set(v) == {b"'", b'"'} and any(isinstance(x, ast.While) for x in n.body):
-                quoted = n
+        if isinstance(n, ast.If):
+            mt = membership_test(n.test, lambda x: ce.try_eval(x, g.module, genv))
+            if mt is not None and set(mt[1]) == {b"'", b'"'} and any(isinstance(x, ast.While) for x in n.body):
+                quoted, cvar = n, mt[0]
     if quoted is None:
         r.idiom("C06.7", False, "prescan-quote-match", g.where, "getAttribute: quoted-value branch not found")
     else:
-        cvar = norm(quoted.test.left)
         opener = [norm(st.targets[0]) for st in quoted.body if isinstance(st, ast.Assign) and norm(st.value) == cvar]
         loop = next(x for x in quoted.body if isinstance(x, ast.While))
         closing = [n for n in ast.walk(loop) if isinstance(n, ast.If) and any(isinstance(x, ast.Return) for x in n.body)]
@@ -458,7 +461,9 @@ def meta_rules(ctx):
     h = repo.func(REL, "ContentAttrParser.parse")
     cfg = CFG(h.node)
     eq_tests = [x for x in cfg.stmt_nodes() if x.kind == "test" and "b'='" in norm(x.ast)]
-    q_tests = [x for x in cfg.stmt_nodes() if x.kind == "test" and "currentByte in" in norm(x.ast)]
+    q_tests = [x for x in cfg.stmt_nodes() if x.kind == "test" and "currentByte" in norm(x.ast) and
+               ("b'\"'" in norm(x.ast) or 'b"\'"' in norm(x.ast))]
+    q_tests = sorted(q_tests, key=lambda x: (x.ast.lineno, x.ast.col_offset))[:1]       # the first disjunct is reached first
     if len(eq_tests) != 1 or len(q_tests) != 1:
         r.idiom("C06.7", False, "content-charset-skip-space", h.where, "ContentAttrParser.parse: `=` / quote tests not found")
     else:
